@@ -314,7 +314,7 @@ def decide(prop, tier, repo, seed, only_units=None, quiet=False):
         if bjobs:
             mods = [(bd["module_file"], os.path.join(VERIF, "units", u["name"], bd["test"])) for (u, bd) in bjobs]
             try:
-                rc, out = _native.run_native(mods, bjobs[0][1]["filter"], repo=repo, extra_args=[bd["filter"] for (_, bd) in bjobs[1:]])
+                rc, out = _native.run_native(mods, bjobs[0][1]["filter"], repo=repo, extra_args=[bd["filter"] for (_, bd) in bjobs[1:]], shared=True)
             except Exception as e:
                 rc, out = None, str(e)
             for (u, bd) in bjobs:
